@@ -46,7 +46,7 @@ ASSUMPTIONS = [
     'The reference session runs in a child process forked before session A executes its first cell, so both sessions start from the same '
     'process state and nothing a failing cell leaks into process-global state can reach the reference.',
 ]
-EXPECTED_PROBES = ['failed_deep_inside_recursive_lambda', 'failed_after_reset', 'cell_failed_on_node_error', 'failed_after_exec_of_context_changing_lambda', 'run_failed_inside_contract_code', 'failed_after_origination_or_sapling_index', 'failed_after_registering_chain_big_map', 'failed_after_alloc_tmp_id', 'failed_after_context_patch', 'commit_after_failure_two_big_maps', 'fault_injected_exit', 'fault_injected_entry',
+EXPECTED_PROBES = ['chain_moved_after_a_failed_cell', 'failed_deep_inside_recursive_lambda', 'failed_after_reset', 'cell_failed_on_node_error', 'failed_after_exec_of_context_changing_lambda', 'run_failed_inside_contract_code', 'failed_after_origination_or_sapling_index', 'failed_after_registering_chain_big_map', 'failed_after_alloc_tmp_id', 'failed_after_context_patch', 'commit_after_failure_two_big_maps', 'fault_injected_exit', 'fault_injected_entry',
                    'failure_inside_nested_block', 'failed_run_after_clear', 'failed_begin', 'failed_commit']
 
 KV = 'int string'
@@ -151,6 +151,13 @@ NEUTRAL_GROUPS = [
      ['DUP', 'UNIT', 'EXEC', 'DROP'], ['DROP']],
     [['LAMBDA unit unit { DROP ; SAPLING_EMPTY_STATE 8 ; DROP ; UNIT }'], ['PUSH int 5', 'DIP { DUP ; UNIT ; EXEC ; DROP }', 'DROP'], ['DROP']],
     [['PUSH int 1', 'PUSH int 2'], ['DIG 1', 'DROP'], ['DROP']],
+    # values of an `or` type carry an internal "other branch is undefined" marker: they stay on the stack across (possibly failing) cells
+    # and are compared / used as keys afterwards
+    [['PUSH (or int string) (Left 1)'], ['DUP', 'PUSH (or int string) (Left 1)', 'COMPARE', 'DROP'], ['DUP', 'PUSH (or int string) (Right "a")', 'COMPARE', 'DROP'], ['DROP']],
+    [['EMPTY_SET (or int string)', 'PUSH bool True', 'PUSH (or int string) (Right "a")', 'UPDATE'], ['DUP', 'PUSH (or int string) (Right "a")', 'MEM', 'DROP'],
+     ['PUSH bool True', 'PUSH (or int string) (Right "a")', 'UPDATE', 'DUP', 'SIZE', 'DROP'], ['DROP']],
+    [['EMPTY_BIG_MAP (or int string) string', 'PUSH string "v"', 'SOME', 'PUSH (or int string) (Left 1)', 'UPDATE'],
+     ['PUSH string "w"', 'SOME', 'PUSH (or int string) (Left 1)', 'UPDATE'], ['DUP', 'PUSH (or int string) (Left 1)', 'GET', 'DROP'], ['DUP', 'BIG_MAP_DIFF', 'DROP'], ['DROP']],
     # legal deep recursions (the interpreter limits the depth to 256): they must still work after a failure deep inside one
     [[rec_cell(60, 'SWAP ; DROP')], ['DROP'], [rec_cell(110, 'SWAP ; DROP'), 'DROP']],
 ]
@@ -312,6 +319,12 @@ def gen(seed, tier):
             # a definitive node failure on the k-th request issued while this cell runs (if it issues that many)
             good['rpc_fault'] = {'at': rng.choice([1, 1, 2, 3]), 'how': rng.choice(['perm', 'perm', 'exc', 'cap'])}
         steps.append(good)
+    if rng.random() < 0.2:
+        # the chain moves on while the session is open: an entry of an on-chain big_map changes (and a block is baked) between two cells
+        for _ in range(rng.choice([1, 1, 2, 3])):
+            bm = rng.choice(sorted(CHAIN_BIG_MAPS))
+            env = {'env': {'bm': bm, 'key': rng.choice(sorted(CHAIN_BIG_MAPS[bm]) + [rng.randint(1, 4)]), 'value': rng.choice([None, 'moved-%d' % rng.randint(0, 99)])}}
+            steps.insert(rng.randint(1, len(steps)), env)
     return {'prop': ID, 'shape': shape, 'steps': steps}
 
 
@@ -376,6 +389,18 @@ class _World:
         tr.fault_for = fault_for
         self.make_shell = lambda: ShellQuery(RpcNode(URI))
         self.seams = core.Seams(sim, tr)
+
+    def apply_env(self, env):
+        """The chain moves on between two cells: one entry of an on-chain big_map is set / removed, a block is baked."""
+        from simtz import c15
+
+        store = self.node.big_maps.setdefault(env['bm'], {})
+        kh = c15.key_hash('int', env['key'])
+        if env.get('value') is None:
+            store.pop(kh, None)
+        else:
+            store[kh] = {'string': env['value']}
+        self.node.bake(1)
 
     def run(self, interp, st, fault=None):
         """One cell with its scheduled node fault armed; returns (result, executed count, fired, rpc fault fired)."""
@@ -501,6 +526,9 @@ def _reference_session(scn, cells, Interpreter):
         renders = {}
         for i in cells:
             st = scn['steps'][i]
+            if st.get('env'):
+                w.apply_env(st['env'])
+                continue
             plan = st.get('plan') or {}
             fault = {'ordinal': plan['ordinal'], 'when': plan['when']} if plan.get('mode') == 'inject' else None
             res_b = w.run(b, st, fault)[0]
@@ -552,6 +580,12 @@ def _execute(scn, want_log, Interpreter, w, ref):
     renders_a = {}
     succeeded = []
     for i, st in enumerate(scn['steps']):
+        if st.get('env'):
+            w.apply_env(st['env'])
+            succeeded.append(i)
+            if failed_any:
+                bump(probes, 'chain_moved_after_a_failed_cell')
+            continue
         text = cell_text(st['instrs'])
         plan = st.get('plan') or {}
         fault = {'ordinal': plan['ordinal'], 'when': plan['when']} if plan.get('mode') == 'inject' else None
@@ -617,6 +651,8 @@ def _execute(scn, want_log, Interpreter, w, ref):
     compared = 0
     first_failed_index = next((e['i'] for e in log if e.get('a_error')), None)
     for i in succeeded:
+        if scn['steps'][i].get('env'):
+            continue
         ra, rb = renders_a[i], json.loads(json.dumps(ref['cells'][str(i)]))
         ra = json.loads(json.dumps(ra, default=str))
         if first_failed_index is not None and i > first_failed_index:
@@ -671,6 +707,8 @@ def simplify(scn):
         return json.loads(json.dumps(scn))
 
     for i, st in enumerate(scn['steps']):
+        if st.get('env'):
+            continue
         if len(st['instrs']) > 1 and not st.get('plan'):
             # split a merged cell in two (keeps semantics, makes later removal possible)
             c = cp()
